@@ -1568,7 +1568,10 @@ class Mhab:
                 "bias_first": rng.random() < 0.1, "qb_shape": rng.choice(["D"] * 6 + ["BSD", "1"]),
                 "pre_scale": rng.choice([None, None, 0.5, 2.0]), "scale_const": rng.random() < 0.9,
                 "attr_scale": rng.choice([None, None, 0.25]), "sym": rng.random() < 0.2,
-                "dt": rng.choice(["f32", "f32", "f32", "f64"]), "mask": rng.random() < 0.3}
+                "dt": rng.choice(["f32", "f32", "f32", "f64"]), "mask": rng.random() < 0.3,
+                # the source node already carries a packed bias (input 3): since a202620 mha_scale must refuse
+                # (the operator adds the bias before scaling); mha_bias's pattern requires that input to be absent
+                "bias0": rng.random() < 0.3}
 
     @staticmethod
     def build(c):
@@ -1595,9 +1598,12 @@ class Mhab:
             sc = g.const(np.array(c["pre_scale"], dtype=NP[dt])) if c["scale_const"] else g.inp("sc", dt, [])
             qq = g.op("Mul", qq, sc, name="qmul")
         ins = [qq, kk, vv]
+        b0 = g.inp("bias0", dt, [3 * D]) if c.get("bias0") else None
         if c["mask"]:
             m = g.inp("mask", dt, [1, 1, S, Skv])
-            ins += [None, None, m]
+            ins += [b0, None, m]
+        elif b0 is not None:
+            ins += [b0]
         g.op("MultiHeadAttention", *ins, domain="com.microsoft", name="out", num_heads=H, scale=c["attr_scale"])
         g.out("out", dt, None)
         return g.model()
@@ -1617,7 +1623,7 @@ class Mhab:
                          "pre=" + ("none" if c["pre_scale"] is None else fbits(float(np.asarray(c["pre_scale"], dtype=NP[c["dt"]])))),
                          f"pre_const={b(c['scale_const'])}",
                          "ascale=" + ("none" if c["attr_scale"] is None else fbits(f32(c["attr_scale"]))),
-                         f"mask={b(c['mask'])}"])
+                         f"mask={b(c['mask'])}", f"bias0={b(c.get('bias0'))}"])
 
     @staticmethod
     def fuse(model):
@@ -1635,7 +1641,8 @@ class Mhab:
         dt = c["dt"]
         f = {"qm": rand_arr(rng, [B, S, D], dt), "km": rand_arr(rng, [B, Skv, D], dt), "vm": rand_arr(rng, [B, Skv, D], dt),
              "qbias": rand_arr(rng, {"D": [D], "BSD": [B, S, D], "1": [1]}[c["qb_shape"]], dt),
-             "kbias": rand_arr(rng, [D], dt), "vbias": rand_arr(rng, [D], dt), "mask": rand_arr(rng, [1, 1, S, Skv], dt)}
+             "kbias": rand_arr(rng, [D], dt), "vbias": rand_arr(rng, [D], dt), "mask": rand_arr(rng, [1, 1, S, Skv], dt),
+             "bias0": rand_arr(rng, [3 * D], dt)}
         if c["pre_scale"] is not None:
             f["sc"] = np.array(c["pre_scale"], dtype=NP[dt])
         return f
